@@ -35,6 +35,8 @@ def cases(tier, seed):
             c["gen"]["aniso"] = [1.0 / 6, 1.0 / 3, 1.0 / 12]
             c["gen"]["nlevels"] = 3 if c["gen"]["bf"] <= 2 else max(2, c["gen"]["nlevels"])
             c["fmt"]["floatfmt"] = "6g"
+    # scale: a level-0 box of more than a million cells under a finer level (9.4 million cells on the uniform grid)
+    cs.append({"scale": "bigbox", "gen": dict(seed=seed * 17 + 1010, nfields=2), "fmt": {}, "sel_seed": seed * 67 + 1010, "light": True})
     # the entry point under real pools, for every start method a platform may have (fork: Linux up to Python
     # 3.13; spawn: macOS, Windows; forkserver: Linux from 3.14 - with the last two the workers re-import the
     # modules instead of inheriting the parent's state)
@@ -97,9 +99,12 @@ def run_case(case, work, rec):
         return
     finest = m.nlevels - 1
     n0 = dict(contracts.COUNTS)
-    for field in rng.sample(m.names, min(2, m.nfields)):
+    light = case.get("light", False)       # the scale case: one field, the two completion orders that matter
+    if light:
+        rec.count("scale_cases")
+    for field in rng.sample(m.names, 1 if light else min(2, m.nfields)):
         fidx = m.names.index(field)
-        for dtype in ("float64", "float32"):
+        for dtype in (("float64",) if light else ("float64", "float32")):
             for limit in [None] + list(range(finest)):
                 L = finest if limit is None else limit
                 with np.errstate(all="ignore"):
@@ -133,6 +138,8 @@ def run_case(case, work, rec):
                         plans.append(({ci: p}, "identity"))
                 plans.append(({}, "shuffle"))
                 plans.append(({}, "reverse"))
+                if light:
+                    plans = [plans[0], plans[-1]]
                 for pi, (plan, default) in enumerate(plans):
                     mode = "fork" if pi % 6 == 2 else "inproc"
                     pools.CTL.reset(mode=mode, plan=plan, default=default, seed=rng.randrange(10 ** 6))
